@@ -300,7 +300,7 @@ func c19Harnesses() []c19Harness {
 			if err := t.SetTemplate(tmpl); err != nil {
 				panic("harness template rejected: " + tmpl + ": " + err.Error())
 			}
-			maps := []map[string]string{{"a": "v", "B": "w", "c": ""}, {"A": "\"/", "b": "", "C": "1"}, {"b": "q"}}
+			maps := []map[string]string{{"a": "v/\"", "B": "w\n\\", "c": ""}, {"A": "\"/x", "b": "\t1/", "C": "1"}, {"a": "/", "b": "q\""}}
 			bodies := []func(){}
 			for i := 0; i < n; i++ {
 				i := i
@@ -555,7 +555,7 @@ func init() {
 		ID:    "C19",
 		Level: "model_checking",
 		Rule: "(a) every compiled expression of C01's tree set and every template of C10's AST set: all evaluation histories of length<=3 over 3 variable sets; after every evaluation deep snapshots (reflection walk incl. unexported fields) of the compiled program with its constants, the variable collections and the function tables are unchanged and the result equals the first result for that variable set; changes anywhere else (whole instance, all package-level variables of all repository packages, discovered at check time) are counted as suspects; " +
-			"(b) cooperative-scheduler DFS over ALL schedules up to the preemption bound of 2 (thorough: 3) threads evaluating one shared calculator / one shared template with separate variable collections, and threads each owning a tokenizer / calculator / template; yield points = API callbacks plus a yield inserted at every function entry (and every loop head of the evaluator and tokenizer main loops) of 10 evaluator, parser and tokenizer source files (regenerated from the working tree by a go/ast tool, injected with go build -overlay); every thread's result must equal its sequential result; one recorded schedule is replayed and must be deterministic; " +
+			"(b) cooperative-scheduler DFS over ALL schedules up to the preemption bound of 2 (thorough: 3) threads evaluating one shared calculator / one shared template with separate variable collections, and threads each owning a tokenizer / calculator / template; yield points = API callbacks plus a yield inserted at every function entry and loop head (except range loops over map parameters) of 10 evaluator, parser and tokenizer source files (regenerated from the working tree by a go/ast tool, injected with go build -overlay); every thread's result must equal its sequential result; one recorded schedule is replayed and must be deterministic; " +
 			"(c) auxiliary free-running pass of the same bodies under the Go race detector (sampling; reported separately); non-trivial = programs evaluated / harnesses with more than one schedule",
 		Assume: []string{"interleavings are explored at yield-point granularity (function entries, loop heads, callbacks), not at memory-access granularity; weak-memory effects are outside a scheduler-based exploration", "the race-detector pass samples real schedules and is not exhaustive"},
 		Spaces: func(tier string) []fw.Space {
